@@ -83,6 +83,7 @@ REQUIRED_GEN = ["gen_crafted", "gen_valid", "gen_truncate", "gen_field64", "gen_
 REQUIRED_CLASSES = ["ok", "err:eof", "err:ueof", "err:invalid"]
 API_OVERLAY = {"server/zz_verif_c10_test.go": "server/zz_verif_c10_test.go"}
 RLIMIT = 3 << 30
+MAX_HANGS = 6
 
 
 def norm(s):
@@ -106,9 +107,17 @@ def run_worker(ctx, binary, ops, outdir, total, hang_s=60, name="impl.txt"):
     def limit():
         resource.setrlimit(resource.RLIMIT_AS, (RLIMIT, RLIMIT))
 
+    hangs = 0
     while True:
         done = sum(1 for _ in open(impl))
         if done >= total:
+            break
+        if hangs >= MAX_HANGS:
+            # enough non-terminating inputs to report (each is a violation with its input); the rest of this run's inputs
+            # are not decoded: `skipped` lines are counted, never compared, and make the run fail closed
+            with open(impl, "a") as f:
+                f.write("skipped\n" * (total - done))
+            ctx.stats["worker_inputs_skipped_after_hangs"] = ctx.stats.get("worker_inputs_skipped_after_hangs", 0) + total - done
             break
         env = ctx.run_env(outdir, {"VERIF_IN": ops, "VERIF_START": done, "GOMEMLIMIT": "3GiB", "VERIF_IMPL_NAME": name})
         p = subprocess.Popen([binary, "-test.run", "^TestVerifC10Worker$", "-test.timeout", "30m"], env=env,
@@ -120,7 +129,9 @@ def run_worker(ctx, binary, ops, outdir, total, hang_s=60, name="impl.txt"):
             cur = sum(1 for _ in open(impl))
             if cur != last:
                 last, last_t = cur, time.time()
-            elif time.time() - last_t > hang_s:
+            elif time.time() - last_t > (hang_s if hangs == 0 else min(hang_s, 8)):
+                # the first hang of a run is given the full limit; once one input has not answered for that long the
+                # later ones are given 8 s (a decode of these inputs takes microseconds)
                 p.kill()
                 hung = True
         out = p.stdout.read().decode(errors="replace")
@@ -131,6 +142,7 @@ def run_worker(ctx, binary, ops, outdir, total, hang_s=60, name="impl.txt"):
         deaths += 1
         if hung:
             res = "hang"
+            hangs += 1
         elif "out of memory" in out or "cannot allocate" in out:
             res = "alloc"
         else:
@@ -180,6 +192,8 @@ def run(ctx):
         distinct.add(hash(op))
         cls = a.split(" ")[0] if a.startswith("ok") else a.split(":other")[0]
         classes[cls] = classes.get(cls, 0) + 1
+        if a == "skipped":
+            continue
         if b == "gray":
             gray += 1
         elif norm(a) != norm(b):
@@ -197,6 +211,8 @@ def run(ctx):
     ctx.coverage["l1_distinct_ops"] = len(distinct)
     ctx.coverage["outcome_classes"] = dict(sorted(classes.items()))
     ctx.coverage["gray_zone_inputs"] = gray
+    if any(a == "skipped" for a in impl) and not any(f["kind"] == "hang" for f in failures):
+        ctx.violation("correspondence-coverage", "", "inputs skipped without a reported hang", no_input=True)
     if not ctx.replay:
         cmissing = [k for k in REQUIRED_CLASSES if classes.get(k, 0) == 0]
         if cmissing:
